@@ -132,7 +132,17 @@ def has_safe_repr(value: t.Any) -> bool:
         # inf and nan have no literal; inside a container repr() would emit a bare name
         return value == value and value not in (float("inf"), float("-inf"))
 
-    if type(value) in {bool, int, complex, range, str, Markup}:
+    if type(value) is int:
+        # Beyond the interpreter's int/str conversion limit there is no
+        # decimal text to write into the generated source.
+        try:
+            repr(value)
+        except ValueError:
+            return False
+
+        return True
+
+    if type(value) in {bool, complex, range, str, Markup}:
         return True
 
     if type(value) in {tuple, list}:
